@@ -375,10 +375,10 @@ class History:
         self.exp.validateExperiment(checkExecutables=False)
         self.remember()
 
-    def peek(self):
-        """what etest / ememo / ewrap see: the instance directory, no platform, nothing written"""
+    def peek(self, update=False):
+        """what etest / ememo / ewrap see: the instance directory, no platform (update: the default updateInstanceConfiguration=True)"""
         import experiment.model.data
-        e = experiment.model.data.Experiment.experimentFromInstance(self.loc, platform=None, updateInstanceConfiguration=False)
+        e = experiment.model.data.Experiment.experimentFromInstance(self.loc, platform=None, updateInstanceConfiguration=update)
         e.validateExperiment(checkExecutables=False)
         return e
 
@@ -432,7 +432,7 @@ def hist_str(hist):
         if h["a"] == "Load":
             return "Load(%s)" % ("update" if h["flag"] else "readonly")
         if h["a"] == "Peek":
-            return "Load(without naming the platform, readonly)"
+            return "Load(without naming the platform, %s)" % ("update" if h["flag"] else "readonly")
         if h["a"] == "Reparam":
             return "Reparam(%s)" % ("plat" if h["flag"] else "default")
         return h["a"]
@@ -469,7 +469,7 @@ def run_history(args):
                 elif a == "Reparam":
                     h.reparam("plat" if flag else "default")
                 elif a == "Peek":
-                    subject = h.peek()
+                    subject = h.peek(flag)
                 else:
                     raise MachineryError("unknown action %s" % a)
             except MachineryError:
@@ -538,6 +538,27 @@ def run_history(args):
                 if d:
                     viol("projection-after-load-without-platform", i, "%d difference(s) between the experiment that wrote the directory and what a reader "
                          "gets without naming the platform: %s" % (len(d), "; ".join(x[:300] for x in d[:4])), diff_class(d[0]))
+                if flag:
+                    # the reader wrote back: the description must be as it was, and the reload that names the platform still yields it
+                    # (one key per history: what the NEXT reload does, else what changed in the directory)
+                    try:
+                        h.load(False)
+                        d = diff(h.stored_projection, project(h.exp, dosini_pk))
+                        if d:
+                            viol("reload-after-platformless-load", i, "after a platform-less load that wrote back, the reload for platform %s differs from "
+                                 "the experiment that wrote the directory: %s" % (h.platform or "default", "; ".join(x[:300] for x in d[:4])), "projection")
+                        else:
+                            d = diff(h.stored_files, canon_files(h.loc, dosini_pk))
+                            if d:
+                                viol("reload-after-platformless-load", i, "a platform-less load that wrote back changed the stored description: %s" % (
+                                    "; ".join(x[:300] for x in d[:4])), "stored-description-changed")
+                    except Exception as e:
+                        if not raised_by_real_code(e):
+                            raise
+                        viol("reload-after-platformless-load", i, "after a platform-less load that wrote back (what etest / ememo / ewrap do), the reload "
+                             "for platform %s (elaunch --restart) raised %s: %s" % (h.platform or "default", type(e).__name__, str(e).replace("\n", " ")[:300]),
+                             "raises-" + type(e).__name__)
+                    break               # the directory is not what the history assumes any more
                 continue                # a read: nothing else changed
             known_bad |= set(bad)       # a divergence is reported where it first shows
             if a == "Load":
@@ -735,8 +756,8 @@ def run(tier):
         "there) are not compared because a legacy instance keeps its variables per stage",
         "quick tier: Reparam, Peek and stale instance files only in some sub-families",
         "Peek is read-only (updateInstanceConfiguration=False); for it the platform's name and the `override` blocks (folded into the component "
-        "when the description is written) are not compared.  A platform-less load that WRITES BACK turns the instance into a default-platform "
-        "instance (platforms: [default]); a later load naming the original platform then fails with 'Unknown platform' -- not modelled, reported to the lead",
+        "when the description is written) are not compared.  The write-back variant (Peek(update), the default of experimentFromInstance) is followed by "
+        "the reload that names the platform (key reload-after-platformless-load:*)",
     ]
     _summary(chk)
     rc = chk.finish()
